@@ -297,6 +297,20 @@ def run_shard(ctx, spec):
                      sample={"fn": "int", "n_bits": n.bit_length(), "n": str(n)[:60]})
             _record(ctx, "int", f, {"kind": "int", "n": str(n)})
         drive(ctx, "ints", st.one_of(around, uni, small, neg), body, 6000 if ctx.tier == "quick" else 60000)
+        # the integers of real keys as the library writes them into a JWK: every RSA member in minimal form, whatever its size
+        # relative to the modulus or the primes (keys come from PEM, so the library does the encoding)
+        from gens import keys as _gk, pem as _gpem
+        from joserfc.jwk import RSAKey
+        for k in _gk.rsa_pool():
+            refk = {a: b for a, b in k.items() if a != "bits"}
+            d = RSAKey.import_key(_gpem.to_pem(refk, True)).as_dict(private=True)
+            for m in ("n", "e", "d", "p", "q", "dp", "dq", "qi"):
+                ctx.case(("jwk-int", k["bits"], m, refk["n"] % 1000), cls="int:jwk-member")
+                if d.get(m) != rb.int_to_b64(refk[m]):
+                    raw = rb.decode(d[m]) if isinstance(d.get(m), str) else b""
+                    ctx.finding("C19:jwk-integer-not-minimal", f"RSA member {m} of a {k['bits']}-bit key is exported as {len(raw)} octets"
+                                f"{' with a leading zero octet' if raw[:1] == b'\x00' else ''}; minimal form has {len(rb.decode(rb.int_to_b64(refk[m])))}",
+                                {"kind": "jwk-int", "bits": k["bits"], "member": m})
     elif part == "fixedint":
         def body(c):
             bits, n = c
@@ -315,13 +329,32 @@ def run_shard(ctx, spec):
             f = case_json(h)
             ctx.case(("json", json.dumps(h, sort_keys=True)), nontrivial=bool(h), cls="json:roundtrip", sample={"fn": "json", "h": h})
             _record(ctx, "json", f, {"kind": "json", "h": h})
-        drive(ctx, "json", json_object(10, 6), body, 1500 if ctx.tier == "quick" else 15000)
+        # headers that are wide rather than deep (many sibling objects / arrays), strings full of brackets and quotes, long member lists
+        wide = st.one_of(
+            st.integers(2, 300).map(lambda n: {"alg": "HS256", "keys": [{"i": i} for i in range(n)]}),
+            st.integers(2, 300).map(lambda n: {"alg": "HS256", "grid": [[i] for i in range(n)]}),
+            st.integers(1, 200).map(lambda n: {"alg": "HS256", "note": "[" * n + "{" * n + '"' * (n % 7)}),
+            st.integers(2, 400).map(lambda n: {f"m{i}": i for i in range(n)}))
+        drive(ctx, "json", st.one_of(json_object(10, 6), json_object(10, 6), json_object(10, 6), wide), body, 1500 if ctx.tier == "quick" else 15000)
     else:
         raise ValueError(part)
 
 
 def replay(rec) -> dict:
     k = rec["kind"]
+    if k == "jwk-int":
+        from gens.jose import setup_joserfc
+        setup_joserfc()
+        from gens import keys as _gk, pem as _gpem
+        from joserfc.jwk import RSAKey
+        for kk in _gk.rsa_pool():
+            if kk["bits"] != rec["bits"]:
+                continue
+            refk = {a: b for a, b in kk.items() if a != "bits"}
+            d = RSAKey.import_key(_gpem.to_pem(refk, True)).as_dict(private=True)
+            if d.get(rec["member"]) != rb.int_to_b64(refk[rec["member"]]):
+                return {"C19:jwk-integer-not-minimal": f"member {rec['member']} of a {rec['bits']}-bit key"}
+        return {}
     if k == "b64any":
         import re as _re
         t = bytes.fromhex(rec["text_hex"])
